@@ -107,24 +107,29 @@ Definition ok_C11 (c : pcase) : bool :=
     slave port slave of the same parent does not change stepsRemoved, parentDS or
     timePropertiesDS (it re-applies the newest stored Announce of the parent, which
     has to be the one applied on receipt).  Judged only while the sequence ids of
-    that master on that port have been strictly increasing in small steps (an id
+    that master on that port have moved forward by less than 2^15 in total (an id
     that does not move forward is not stored by the library while its contents
     are applied on receipt: observation F27, DESIGN 14.3, outside the quantifier
-    of C11).  This clause is evaluated on traces; [C11_main] is about (a)-(c). *)
-Record seen11 := mkSeen { sn_port : nat; sn_src : port_identity; sn_seq : Z; sn_ok : bool }.
+    of C11). *)
+Record seen11 := mkSeen { sn_port : nat; sn_src : port_identity; sn_seq : Z; sn_travel : Z; sn_ok : bool }.
 
+(** [sn_travel]: how far the sequence id of this master on this port has moved in
+    total; the library compares an id with the newest record it still holds, which
+    may be an older one, so the two views agree while the total stays below 2^15 *)
 Fixpoint note11 (p : nat) (src : port_identity) (seq : Z) (l : list seen11) : list seen11 :=
   match l with
-  | [] => [mkSeen p src seq true]
+  | [] => [mkSeen p src seq 0 true]
   | x :: l' =>
       if Nat.eqb (sn_port x) p && pi_eqb (sn_src x) src then
-        let d := (seq - sn_seq x) mod 65536 in
-        mkSeen p src seq (sn_ok x && (0 <? d) && (d <=? 1000)) :: l'
+        let t := sn_travel x + (seq - sn_seq x) mod 65536 in
+        mkSeen p src seq t (sn_ok x && (t <? 32767)) :: l'
       else x :: note11 p src seq l'
   end.
 
+Definition entry11 (p : nat) (src : port_identity) (l : list seen11) : option seen11 :=
+  find (fun x => Nat.eqb (sn_port x) p && pi_eqb (sn_src x) src) l.
 Definition steady11 (p : nat) (src : port_identity) (l : list seen11) : bool :=
-  existsb (fun x => Nat.eqb (sn_port x) p && pi_eqb (sn_src x) src && sn_ok x) l.
+  match entry11 p src l with Some x => sn_ok x | None => false end.
 
 Definition step_C11d (c : pcase) (l : list seen11) (prev : snapshot) (e : event) (o : list tobs) (sn : snapshot)
   : option (list seen11) :=
